@@ -73,7 +73,125 @@ Proof.
 Qed.
 End HandoutProofs.
 
-(* ---- flat comment documents *)
-Lemma dropwhile_app_nows l r : (forall c, In c l -> is_ws c = false) -> l <> [] ->
-  dropwhile is_ws (l ++ r) = l ++ r.
-Proof. destruct l as [|c l]; [congruence|]. intros H _. cbn. rewrite (H c (or_introl eq_refl)). reflexivity. Qed.
+(* ---- comment text: what the printer writes in one line, the lexer reads back *)
+Definition first_ok (t : str) : Prop := match t with c :: _ => is_ws c = false /\ c <> STAR | [] => True end.
+Definition last_ok (t : str) : Prop := match rev t with c :: _ => is_ws c = false | [] => True end.
+Definition no_nl (t : str) : Prop := forall c, In c t -> c <> NLc.
+
+Lemma find_close_app : forall a acc rest, has_close a = false ->
+  find_close (a ++ STAR :: SLASH :: rest) acc = Some (rev acc ++ a, rest).
+Proof.
+  induction a as [|c a IH]; intros acc rest H.
+  - cbn. rewrite app_nil_r. reflexivity.
+  - cbn [app]. destruct a as [|b a'].
+    + cbn [app find_close]. rewrite ?andb_false_r. rewrite !N.eqb_refl. cbn [andb rev]. reflexivity.
+    + cbn [has_close] in H. apply orb_false_elim in H. destruct H as [Hcb H].
+      change (find_close (c :: (b :: a') ++ STAR :: SLASH :: rest) acc) with
+        (if ((c =? STAR) && (b =? SLASH))%N then Some (rev acc, a' ++ STAR :: SLASH :: rest)
+         else find_close ((b :: a') ++ STAR :: SLASH :: rest) (c :: acc)).
+      rewrite Hcb. rewrite (IH (c :: acc) rest H). cbn [rev]. rewrite <- app_assoc. reflexivity.
+Qed.
+
+Lemma dropwhile_nows c l : is_ws c = false -> dropwhile is_ws (c :: l) = c :: l.
+Proof. intros H. cbn. rewrite H. reflexivity. Qed.
+
+Lemma trim_end_keep l : last_ok l -> trim_end (l ++ [SP]) = l.
+Proof.
+  intros H. unfold trim_end. rewrite rev_app_distr. cbn [rev app dropwhile].
+  change (is_ws SP) with true. cbn iota. unfold last_ok in H.
+  destruct (rev l) as [|c r] eqn:E.
+  - cbn. apply (f_equal (@rev N)) in E. rewrite rev_involutive in E. cbn in E. congruence.
+  - rewrite (dropwhile_nows c r H). rewrite <- E. apply rev_involutive.
+Qed.
+
+Lemma split_nl_no_nl : forall l cur, no_nl l -> split_nl cur l = [rev cur ++ l].
+Proof.
+  induction l as [|c l IH]; intros cur H.
+  - cbn. rewrite app_nil_r. reflexivity.
+  - cbn [split_nl]. destruct (N.eqb_spec c NLc) as [->|Hne].
+    + exfalso. apply (H NLc); [left; reflexivity|reflexivity].
+    + change 10%N with NLc. destruct (N.eqb_spec c NLc); [contradiction|].
+      rewrite IH; [|intros x Hx; apply H; right; exact Hx]. cbn [rev]. rewrite <- app_assoc. reflexivity.
+Qed.
+
+Lemma no_nl_app a b : no_nl a -> no_nl b -> no_nl (a ++ b).
+Proof. intros Ha Hb c Hc. apply in_app_or in Hc. destruct Hc; auto. Qed.
+
+Lemma post_process_flat text : no_nl text -> first_ok text -> last_ok text ->
+  post_process_block_comment (SP :: text ++ [SP]) = text.
+Proof.
+  intros Hn Hf Hl. unfold post_process_block_comment.
+  rewrite (split_nl_no_nl (SP :: text ++ [SP]) []).
+  2:{ intros c [<-|Hc]; [discriminate|]. apply in_app_or in Hc. destruct Hc as [Hc|[<-|[]]]; [apply Hn; exact Hc|discriminate]. }
+  cbn [rev app map]. unfold process_line, trim_start. cbn [dropwhile]. change (is_ws SP) with true. cbn iota.
+  destruct text as [|c t].
+  - cbn. reflexivity.
+  - cbn [first_ok] in Hf. destruct Hf as [Hws Hstar]. cbn [app]. rewrite (dropwhile_nows c _ Hws).
+    destruct (N.eqb_spec c STAR); [contradiction|].
+    change (c :: t ++ [SP]) with ((c :: t) ++ [SP]). rewrite (trim_end_keep _ Hl). cbn. reflexivity.
+Qed.
+
+(* the one-line form of a block / doc comment is read back as the same comment *)
+Theorem block_comment_flat_roundtrip : forall is_doc text rest,
+  no_nl text -> first_ok text -> last_ok text -> has_close text = false ->
+  lex_block_comment (starter is_doc ++ [SP] ++ text ++ EC ++ rest) = Some (is_doc, text, rest).
+Proof.
+  intros is_doc text rest Hn Hf Hl Hc.
+  assert (Hraw : has_close (SP :: text ++ [SP]) = false).
+  { clear -Hc. change (SP :: text ++ [SP]) with ((SP :: text) ++ [SP]).
+    assert (G : forall l, has_close l = false -> has_close (l ++ [SP]) = false).
+    { induction l as [|a [|b l] IH]; intros H; try reflexivity.
+      - cbn. change (SP =? SLASH)%N with false. rewrite andb_false_r. reflexivity.
+      - cbn [has_close] in H. apply orb_false_elim in H. destruct H as [H1 H2].
+        change (has_close ((a :: b :: l) ++ [SP])) with (((a =? STAR) && (b =? SLASH))%N || has_close ((b :: l) ++ [SP])).
+        rewrite H1. apply IH. exact H2. }
+    apply G. destruct text as [|c t]; [reflexivity|].
+    change (has_close (SP :: c :: t)) with (((SP =? STAR) && (c =? SLASH))%N || has_close (c :: t)).
+    change (SP =? STAR)%N with false. exact Hc. }
+  destruct is_doc; cbn [starter app lex_block_comment]; rewrite !N.eqb_refl; cbn [andb].
+  - (* "/**" *)
+    assert (E : STAR :: SP :: text ++ EC ++ rest = (STAR :: SP :: text ++ [SP]) ++ STAR :: SLASH :: rest).
+    { cbn [app EC]. rewrite <- !app_assoc. reflexivity. }
+    rewrite E. rewrite find_close_app.
+    2:{ change (has_close (STAR :: (SP :: text ++ [SP]))) with (((STAR =? STAR) && (SP =? SLASH))%N || has_close (SP :: text ++ [SP])).
+        change (SP =? SLASH)%N with false. rewrite andb_false_r. exact Hraw. }
+    cbn [rev app]. rewrite N.eqb_refl. rewrite (post_process_flat text Hn Hf Hl). reflexivity.
+  - (* "/*" *)
+    assert (E : SP :: text ++ EC ++ rest = (SP :: text ++ [SP]) ++ STAR :: SLASH :: rest).
+    { cbn [app EC]. rewrite <- !app_assoc. reflexivity. }
+    rewrite E. rewrite find_close_app by exact Hraw.
+    cbn [rev app]. change (SP =? STAR)%N with false. cbn iota.
+    rewrite (post_process_flat text Hn Hf Hl). reflexivity.
+Qed.
+
+Lemma until_nl_no_nl : forall l acc rest, no_nl l -> until_nl (l ++ NLc :: rest) acc = (rev acc ++ l, NLc :: rest).
+Proof.
+  induction l as [|c l IH]; intros acc rest H.
+  - cbn. rewrite app_nil_r. reflexivity.
+  - cbn [app until_nl]. destruct (N.eqb_spec c NLc) as [->|Hne].
+    + exfalso. apply (H NLc); [left; reflexivity|reflexivity].
+    + rewrite IH; [|intros x Hx; apply H; right; exact Hx]. cbn [rev]. rewrite <- app_assoc. reflexivity.
+Qed.
+
+Theorem line_comment_flat_roundtrip : forall text rest,
+  no_nl text -> first_ok text -> last_ok text ->
+  lex_line_comment (LC ++ text ++ NLc :: rest) = Some (text, NLc :: rest).
+Proof.
+  intros text rest Hn Hf Hl. cbn [LC app lex_line_comment]. rewrite !N.eqb_refl. cbn [andb].
+  change (SP :: text ++ NLc :: rest) with ((SP :: text) ++ NLc :: rest).
+  rewrite until_nl_no_nl.
+  2:{ intros c [<-|Hc]; [discriminate|apply Hn; exact Hc]. }
+  cbn [rev app]. f_equal. f_equal. unfold trim, trim_start.
+  destruct text as [|c t].
+  - reflexivity.
+  - assert (E : trim_end (SP :: c :: t) = SP :: c :: t).
+    { unfold trim_end. cbn [rev]. unfold last_ok in Hl. cbn [rev] in Hl.
+      destruct (rev t ++ [c]) as [|x r] eqn:Er.
+      - destruct (rev t); discriminate.
+      - change ((x :: r) ++ [SP]) with (x :: (r ++ [SP])). rewrite (dropwhile_nows x _ Hl).
+        change (x :: (r ++ [SP])) with ((x :: r) ++ [SP]). rewrite <- Er.
+        rewrite rev_app_distr. cbn [rev app]. rewrite rev_app_distr, rev_involutive. reflexivity. }
+    rewrite E. cbn [dropwhile]. change (is_ws SP) with true. cbn iota.
+    cbn [first_ok] in Hf. destruct Hf as [Hws _]. apply dropwhile_nows. exact Hws.
+Qed.
+
